@@ -94,7 +94,12 @@ theorem pre_of_inv {cfg : Cfg} {s : State} (hI : Inv cfg s) (ps : List Primary)
    hps, by show s.c.numInitializers + ps.length ≤ cfg.capacity; omega,
    hI.vac, hI.nvac, hI.status, hI.occupied⟩
 
+theorem events_all {maxEv : Nat} (ps : List Primary) :
+    (ps.all fun p => decide (p.ev < maxEv)) = true ↔ ∀ p ∈ ps, p.ev < maxEv := by
+  simp [List.all_eq_true]
+
 theorem stepWith_fit (ps : List Primary) (o : List Outcome) (s : State) (hp : s.pending = [])
+    (hev : ∀ p ∈ ps, p.ev < s.cfg.maxEvents)
     (hfit : ps.length + s.c.numInitializers ≤ s.cfg.capacity) :
     stepWith ps o s
       = stepBody o { s with pending := ps, c := { s.c with numGenerated := 0 } } := by
@@ -102,17 +107,28 @@ theorem stepWith_fit (ps : List Primary) (o : List Outcome) (s : State) (hp : s.
     unfold insertPrimaries
     rw [if_neg (by omega), if_neg (by rw [hp]; simp)]
   unfold stepWith
-  rw [h1]
+  rw [if_neg (by rw [(events_all ps).mpr hev]; simp), h1]
   exact step_eq_body o { s with pending := ps }
 
 theorem stepWith_nofit (ps : List Primary) (o : List Outcome) (s : State)
+    (hev : ∀ p ∈ ps, p.ev < s.cfg.maxEvents)
     (hfit : ¬ ps.length + s.c.numInitializers ≤ s.cfg.capacity) :
     stepWith ps o s = .error (.capacity, s) := by
   have h1 : insertPrimaries ps s = .error .capacity := by
     unfold insertPrimaries
     rw [if_pos hfit]
   unfold stepWith
-  rw [h1]
+  rw [if_neg (by rw [(events_all ps).mpr hev]; simp), h1]
+
+/-- the Stepper refuses primaries whose event id is not below `max_events`, before anything is
+    touched -/
+theorem stepWith_bad_event (ps : List Primary) (o : List Outcome) (s : State)
+    (hev : ¬ ∀ p ∈ ps, p.ev < s.cfg.maxEvents) :
+    stepWith ps o s = .error (.maxEvents, s) := by
+  unfold stepWith
+  rw [if_pos]
+  intro h
+  exact hev ((events_all ps).mp h)
 
 theorem step_nil_eq (o : List Outcome) (s : State) (hp : s.pending = []) :
     step o s
@@ -142,9 +158,11 @@ theorem stepAny_spec {cfg : Cfg} {s : State} (hIT : ITSpec cfg) (hI : Inv cfg s)
     by_cases hfit : (p :: ps).length + s.c.numInitializers ≤ cfg.capacity
     · have hpre := pre_of_inv hI (p :: ps) hps hfit
       have hb := stepBody_spec hIT hpre o ho
-      rw [stepWith_fit (p :: ps) o s hI.pending (by rw [hI.lens.cfg_eq]; exact hfit)]
+      rw [stepWith_fit (p :: ps) o s hI.pending (by rw [hI.lens.cfg_eq]; exact hps)
+        (by rw [hI.lens.cfg_eq]; exact hfit)]
       exact ⟨hb.1, fun e s' h => (hb.2 e s' h).2⟩
-    · rw [stepWith_nofit (p :: ps) o s (by rw [hI.lens.cfg_eq]; exact hfit)]
+    · rw [stepWith_nofit (p :: ps) o s (by rw [hI.lens.cfg_eq]; exact hps)
+        (by rw [hI.lens.cfg_eq]; exact hfit)]
       constructor
       · intro s' h; cases h
       · intro e s' h
